@@ -176,6 +176,46 @@ def run_case(c):
     return rec
 
 
+BIG_MEASURES = ("nsi_average_path_length", "nsi_global_efficiency", "nsi_closeness", "nsi_harmonic_closeness",
+                "nsi_exponential_closeness", "nsi_degree", "nsi_local_clustering")
+
+
+def run_bigsplit(c):
+    """A sparse connected network of n nodes (ring plus seeded chords, dyadic weights), node v split in halves:
+    the path-based n.s.i. measures before and after."""
+    from pyunicorn.core import Network
+    n, v = c["n"], c["v"]
+    rng = np.random.RandomState(c["gseed"])
+    A = np.zeros((n, n), dtype=np.int8)
+    idx = np.arange(n)
+    A[idx, (idx + 1) % n] = 1
+    for a, b in rng.randint(0, n, size=(n // 2, 2)):
+        if a != b:
+            A[a, b] = 1
+    A = np.maximum(A, A.T)
+    w = rng.choice([0.5, 1.0, 1.5, 2.0], size=n)
+    rec = dict(c)
+    rec["exc"] = ""
+
+    def obs(net):
+        o = {"s": {}, "v": {}}
+        for nm in BIG_MEASURES:
+            a = np.asarray(getattr(net, nm)())
+            if a.ndim == 0:
+                o["s"][nm] = enc.num(a[()])
+            else:
+                o["v"][nm] = enc.arr(a)
+        return o
+    try:
+        net = Network(adjacency=A, node_weights=w, silence_level=3)
+        rec["before"] = obs(net)
+        rec["after"] = obs(net.splitted_copy(node=v - 1, proportion=0.5))
+    except Exception as ex:
+        rec["exc"] = type(ex).__name__
+        rec["before"] = rec["after"] = {"s": {}, "v": {}}
+    return rec
+
+
 def _nontrivial(rec):
     return rec["n"] >= 2 and sum(rec["A"][rec["v"] - 1]) > 0
 
@@ -201,10 +241,20 @@ def main(ctx):
     ctx.extra["scope"] = open(os.path.join(os.path.dirname(__file__), "..", "spec", cfg + ".cfg")).read().split()
     recs = ctx.run_cases("props.c02.run_case", cases)
     ctx.validate("Val_C02", "Val_C02", recs, nontrivial=_nontrivial)
+    # large networks (matrices beyond 2^20 entries): the path-based measures under one split
+    big = [{"case": "B%d_%d" % (n, v), "blk": "bigsplit", "n": n, "v": v, "gseed": ctx.seed + n}
+           for n, v in (((1030, 1), (1030, 700)) if ctx.tier == "quick" else ((1030, 1), (1030, 700), (1500, 1200), (200, 7)))]
+    brecs = ctx.run_cases("props.c02.run_bigsplit", big)
+    ctx.validate("Val_C02big", "Val_C02big", brecs, stage="Val_C02big", nontrivial=lambda r: True)
 
 
 def replay(ctx, rep):
     rec = rep["record"]
+    if rec.get("blk") == "bigsplit":
+        case = {k: rec[k] for k in ("case", "blk", "n", "v", "gseed")}
+        brecs = ctx.run_cases("props.c02.run_bigsplit", [case], jobs=1)
+        ctx.validate("Val_C02big", "Val_C02big", brecs, stage="Val_C02big", nontrivial=lambda r: True)
+        return
     case = {k: v for k, v in rec.items() if k not in ("obs0", "obs1", "obs2", "split1", "split2", "warm", "pos1", "pos2")}
     recs = ctx.run_cases("props.c02.run_case", [case], jobs=1)
     ctx.validate("Val_C02", "Val_C02", recs, nontrivial=_nontrivial)
